@@ -118,6 +118,7 @@ pub trait DrainDyn<T> {
     fn step_by_collect(self: Box<Self>, k: usize) -> Vec<T>;
     /// internal iteration: `fold` from the front / `rfold` from the back, collecting in visit order
     fn fold_collect(self: Box<Self>) -> Vec<T>;
+    fn via_collect(self: Box<Self>, flavor: u8) -> Vec<T>;
     fn rfold_collect(self: Box<Self>) -> Vec<T>;
     fn rev_last(self: Box<Self>) -> Option<T>;
     /// `position` / `rposition` with a predicate, on the drain itself (elements passed over are destroyed)
@@ -149,6 +150,9 @@ impl<const N: usize, T: Debug> DrainDyn<T> for Drain<'_, N, T> {
     }
     fn step_by_collect(self: Box<Self>, k: usize) -> Vec<T> {
         (*self).step_by(k + 1).collect()
+    }
+    fn via_collect(self: Box<Self>, flavor: u8) -> Vec<T> {
+        crate::case::via_collect(*self, flavor)
     }
     fn fold_collect(self: Box<Self>) -> Vec<T> {
         (*self).fold(Vec::new(), |mut v, x| {
@@ -213,6 +217,7 @@ pub trait IntoIterDyn<T> {
     fn nth(&mut self, k: usize) -> Option<T>;
     fn nth_back(&mut self, k: usize) -> Option<T>;
     fn fold_collect(self: Box<Self>) -> Vec<T>;
+    fn via_collect(self: Box<Self>, flavor: u8) -> Vec<T>;
     fn rfold_collect(self: Box<Self>) -> Vec<T>;
     /// the real adaptors (they destroy what they pass over inside the iterator machinery)
     fn count_rest(self: Box<Self>) -> usize;
@@ -252,6 +257,9 @@ impl<const N: usize, T: Debug + Clone + 'static> IntoIterDyn<T> for IntoIter<N, 
     }
     fn nth_back(&mut self, k: usize) -> Option<T> {
         DoubleEndedIterator::nth_back(self, k)
+    }
+    fn via_collect(self: Box<Self>, flavor: u8) -> Vec<T> {
+        crate::case::via_collect(*self, flavor)
     }
     fn fold_collect(self: Box<Self>) -> Vec<T> {
         // directly on the iterator, so that a `fold` override is what runs
